@@ -104,6 +104,15 @@ func (b *BlockNet) put(p int, n ipld.Node) {
 	b.mu.Unlock()
 }
 
+// Drop removes a block from every peer.
+func (b *BlockNet) Drop(c cid.Cid) {
+	b.mu.Lock()
+	for i := range b.blocks {
+		delete(b.blocks[i], c)
+	}
+	b.mu.Unlock()
+}
+
 // Has reports whether peer p holds the block locally.
 func (b *BlockNet) Has(p int, c cid.Cid) bool {
 	b.mu.Lock()
